@@ -42,6 +42,28 @@ def stale_errno(k):
     return STALE_ERRNOS[hash(k) % len(STALE_ERRNOS)] if not isinstance(k, int) else STALE_ERRNOS[k % len(STALE_ERRNOS)]
 
 
+def errno_independence(acc, pid, w, setup, lines, rows, flavour, what, values=(34, 22), timeout=120.0):
+    """Re-run `lines` with errno pre-set to other stale values: the outcome of a library call (result string, and
+    the errno of a failure) must not depend on what errno held on entry.  `setup` without its own preerrno line."""
+    from .pool import Death
+    for v in values:
+        rows2 = run_resilient(w, list(setup) + ["preerrno %d" % v], lines, timeout=timeout, max_deaths=3)
+        for ln, a, b in zip(lines, rows, rows2):
+            if not isinstance(a, dict) or not isinstance(b, dict):
+                continue
+            acc.count("errno_independence_pairs")
+            same = (a.get("r"), a.get("o")) == (b.get("r"), b.get("o"))
+            if same and a.get("r") == "N" and a.get("e") != b.get("e"):
+                same = False
+            if not same:
+                acc.violation("%s/depends-on-stale-errno/%s" % (pid, what),
+                              "with errno = %d on entry the call gives r=%s o=%s e=%s, otherwise r=%s o=%s e=%s: %s" % (
+                                  v, b.get("r"), (b.get("o") or "")[:80], b.get("e"), a.get("r"), (a.get("o") or "")[:80],
+                                  a.get("e"), ln[:160]),
+                              replay_obj(flavour, list(setup) + ["preerrno %d" % v, ln]))
+                break
+
+
 def crypt_line(entry, slot, phrase, setting, size="=", mode="s"):
     return "crypt %s %d %s %s %s %s" % (entry, slot, hx(phrase), hx(setting), size, mode)
 
